@@ -264,6 +264,8 @@ int g_exec_log[16], g_nexec;
 struct DShared {
     std::future<int> fut[8];
     bool has[8] = {false};
+    std::future<void> vfut[8];  // modify_async of a functor returning void
+    bool hasv[8] = {false};
 };
 void dg_body(int variant)
 {
@@ -307,6 +309,19 @@ void dg_body(int variant)
                             MC_CHECK(holds(dg_mutex) == 0, "lock-kept", "modify_detach threw but the lock is still held");
                             observe(77);
                         }
+                    } else if (k == 2) {
+                        // void-returning functor: its exception belongs in the future, never in the submitter
+                        auto f = fun(id);
+                        try {
+                            sh->vfut[id] = dg->modify_async([f](Pair& x) { (void)f(x); });
+                            sh->hasv[id] = true;
+                        }
+                        catch (const Injected&) {
+                            fail("exception-escaped", "modify_async(void functor) let the functor's exception escape to the submitter");
+                        }
+                        catch (const std::exception& e) {
+                            fail("exception-escaped", "modify_async(void functor) threw %s", e.what());
+                        }
                     } else {
                         sh->fut[id] = dg->modify_async(fun(id));
                         sh->has[id] = true;
@@ -331,9 +346,17 @@ void dg_body(int variant)
                 auto h = dg->lock_shared();
                 hx::read_pair(*h, "reader");
             }));
-        } else {
+        } else if (variant == 3) {
             submitter({0, 1}, 0);
             submitter({1}, 4);
+        } else {
+            // void-returning modify_async on the direct and on the queued path
+            submitter({2, 2}, 0);
+            ids.push_back(spawn([dg] {
+                auto h = dg->lock_shared();
+                hx::read_pair(*h, "reader");
+                point();
+            }));
         }
         for (int id : ids) join(id);
     }
@@ -353,6 +376,16 @@ void dg_body(int variant)
         }
         catch (const Injected&) {
             observe(78);  // exception captured in the future, as documented
+        }
+    }
+    for (int id = 0; id < 8; id++) {
+        if (!sh->hasv[id]) continue;
+        MC_CHECK(sh->vfut[id].wait_for(std::chrono::seconds(0)) == std::future_status::ready, "future-not-ready", "future #%d (void) not ready", id);
+        try {
+            sh->vfut[id].get();
+        }
+        catch (const Injected&) {
+            observe(79);  // captured in the future, as documented
         }
     }
     // order within one submitting thread
@@ -513,8 +546,8 @@ void make_items(const Options& o, std::vector<Item>& items)
     if (thorough) add(o, items, "cow_guarded<Pair>: 3 writers lock+commit (throwing copy constructor)", [] { cow_body(3, false); }, M_COPY, 2, 2);
     // D
     static const char* dn[] = {"modify_detach | modify_detach", "modify_async | reader | modify_detach", "modify_detach modify_detach | reader",
-                               "modify_detach modify_async | modify_async"};
-    for (int v = 0; v < 4; v++)
+                               "modify_detach modify_async | modify_async", "modify_async(void) x2 | reader"};
+    for (int v = 0; v < 5; v++)
         add(o, items, std::string("deferred_guarded<Pair>: ") + dn[v] + " (throwing functors)", [v] { dg_body(v); }, M_FUNC, 3, 4);
     // E
     for (int v = 0; v < 3; v++)
